@@ -275,7 +275,7 @@ func (x *Exec) pureAppFact(st *State, c *Contract, fn *ssa.Function, args []*Val
 		}
 	}
 	for _, r := range c.Requires {
-		pre = append(pre, env.evalBool(r))
+		pre = append(pre, env.withPol(0).evalBool(r))
 	}
 	if c.PanicsIff != nil {
 		pre = append(pre, not(env.evalBool(*c.PanicsIff)))
@@ -284,7 +284,7 @@ func (x *Exec) pureAppFact(st *State, c *Contract, fn *ssa.Function, args []*Val
 	}
 	var post []Tm
 	for _, en := range c.Ensures {
-		post = append(post, env.evalBool(en))
+		post = append(post, env.hyp(en))
 	}
 	if ii, ok := basicIntInfo(rs.At(0).Type()); ok {
 		post = append(post, m.inRange(res.S, ii))
@@ -311,6 +311,9 @@ func (x *Exec) withAfter(fr *Frame, site ssa.Instruction, cc *ssa.CallCommon, kn
 	}
 	var cls []AfterClause
 	for _, a := range fr.contract.After {
+		if strings.HasPrefix(a.Callee, "store:") || a.Callee == "exit" {
+			continue
+		}
 		if a.Callee == name || strings.HasSuffix(name, "."+a.Callee) || strings.HasSuffix(name, a.Callee) {
 			cls = append(cls, a)
 		}
@@ -330,19 +333,7 @@ func (x *Exec) withAfter(fr *Frame, site ssa.Instruction, cc *ssa.CallCommon, kn
 		if site != nil {
 			ord = x.siteOrdinal(fr.fn, site, "call")
 		}
-		for i, a := range cls {
-			if a.Inst {
-				s.assume(x.instantiateRequires(env, fr.contract, a.Cl))
-				continue
-			}
-			lbl := a.Cl.Label
-			if lbl == "" {
-				lbl = fmt.Sprint(i)
-			}
-			g := env.evalBool(a.Cl)
-			x.emit(s, fmt.Sprintf("ghost:%s%s@%d", fr.prefix, lbl, ord), "ghost", g, fmt.Sprintf("ghost assertion %q after call of %s", a.Cl.Src, a.Callee))
-			s.assume(g)
-		}
+		x.runGhost(s, fr, env, cls, ord)
 		kn(s, res)
 	}
 }
@@ -432,4 +423,101 @@ func (x *Exec) instantiateRequires(env *CEnv, c *Contract, cl Clause) Tm {
 	old.inOld = true
 	r := old.eval(body)
 	return implies(and(guards...), r.S)
+}
+
+// runGhost executes ghost statements (assert-then-assume, instantiate, ghostset) in order.
+func (x *Exec) runGhost(s *State, fr *Frame, env *CEnv, cls []AfterClause, ord int) {
+	for i, a := range cls {
+		switch {
+		case a.Inst:
+			s.assume(x.instantiateRequires(env, fr.contract, a.Cl))
+		case a.Ghost != "":
+			x.ghostSet(s, env, a)
+		default:
+			lbl := a.Cl.Label
+			if lbl == "" {
+				lbl = fmt.Sprint(i)
+			}
+			g, note := safeEval(env, a.Cl)
+			x.emit(s, fmt.Sprintf("ghost:%s%s@%d", fr.prefix, lbl, ord), "ghost", g, fmt.Sprintf("ghost assertion %q at %s%s", a.Cl.Src, a.Callee, note))
+			s.assume(g)
+		}
+	}
+}
+
+// ghostSet: g := lambda(vars). e  (e is evaluated before the update)
+func (x *Exec) ghostSet(s *State, env *CEnv, a AfterClause) {
+	gd := x.cs.Ghosts[a.Ghost]
+	if gd == nil {
+		engineErr("ghostset: unknown ghost %q", a.Ghost)
+	}
+	if len(a.GhostVars) != len(gd.Keys) {
+		engineErr("ghostset %s: %d variables for %d keys", a.Ghost, len(a.GhostVars), len(gd.Keys))
+	}
+	m := s.m
+	sub := env.sub()
+	for k, v := range env.vars {
+		sub.vars[k] = v
+	}
+	var bvs []string
+	var keys []Tm
+	for i, vn := range a.GhostVars {
+		ks := x.ghostKeySort(m, gd.Keys[i])
+		bn := freshName(vn)
+		bvs = append(bvs, fmt.Sprintf("(%s %s)", bn, ks))
+		keys = append(keys, Tm{bn, ks})
+		kk := gd.Keys[i]
+		switch {
+		case strings.HasPrefix(kk, "*"):
+			sub.bound[vn] = &Val{T: x.resolveType(gd.Pkg, kk), K: KPtr, S: Tm{bn, ks}}
+		case kk == "ref" || kk == "addr":
+			sub.bound[vn] = &Val{T: types.Typ[types.UnsafePointer], K: KPtr, S: Tm{bn, ks}}
+		case kk == "int":
+			sub.bound[vn] = &Val{T: types.Typ[types.Int], K: KInt, S: Tm{bn, ks}}
+		default:
+			engineErr("ghostset: unsupported key sort %q", kk)
+		}
+	}
+	var sides []Tm
+	sub.sides = &sides
+	rhs := sub.eval(a.Cl.Expr)
+	rt := sub.typedGhostVal(gd, rhs)
+	sort := x.ghostSort(m, gd)
+	na := s.declare("G."+a.Ghost, sort)
+	app := na
+	for _, k := range keys {
+		app = sel(app, k, arrayElemSort(app.Sort))
+	}
+	s.assume(tm(SBool, "(forall (%s) (! %s :pattern (%s)))", strings.Join(bvs, " "), implies(and(sides...), eq(app, rt)).S, app.S))
+	key := "ghost|" + a.Ghost
+	if _, ok := s.sorts[key]; !ok {
+		s.sorts[key] = sort
+	}
+	s.heap[key] = na
+}
+
+// afterStore runs the ghost statements the contract attaches to stores to a field.
+func (x *Exec) afterStore(st *State, fr *Frame, site ssa.Instruction, p *Ptr) {
+	if fr.contract == nil || len(fr.contract.After) == 0 || p.Kind != PObj || len(p.Path) != 1 {
+		return
+	}
+	stt, ok := p.Root.Underlying().(*types.Struct)
+	if !ok {
+		return
+	}
+	name := namedStructKey(p.Root)
+	if i := strings.LastIndex(name, "."); i >= 0 {
+		name = name[i+1:]
+	}
+	point := "store:" + name + "." + stt.Field(p.Path[0]).Name()
+	var cls []AfterClause
+	for _, a := range fr.contract.After {
+		if a.Callee == point {
+			cls = append(cls, a)
+		}
+	}
+	if len(cls) == 0 {
+		return
+	}
+	x.runGhost(st, fr, x.frameEnv(st, fr), cls, x.siteOrdinal(fr.fn, site, "nil"))
 }
